@@ -203,7 +203,8 @@ CHECKS = {
                  'config_fixed; the individual flag checks are private `decide` lemmas, not counted as obligations) against the declarative Spec/SchemaValidSpec.lean. Headline theorems, all full: validate_iff / accepts_iff (no error <=> '
                  'ValidSchema), violation_iff / reports_every_violation / valid_iff_no_violation (an error is reported <=> that rule INSTANCE is violated: '
                  'the validator never stops at the first), reports_all, subtype_iff (+ subtype_fuel) through lists and non-null, name_iff, perm_types '
-                 '(verdict independent of the order of schema.types), the resolver clause given its meaning by an explicit model of Python call binding '
+                 '(verdict independent of the order of schema.types), the uniqueness clauses of the specification that the validator does not re-check on '
+                 'live objects NAMED (ConstructionInvariants, validate_iff_spec, enum_uniqueness_not_implemented), the resolver clause given its meaning by an explicit model of Python call binding '
                  '(Props/C13_call.lean: compatible_calls_bind, binds_all_compatible, compatible_iff_binds, resolver_rule_iff_binds: accepted <=> every '
                  'call resolver(root, ctx, info, **arguments) the executor can make binds), and the _is_valid cache as a state machine over validate / '
                  'register_resolver / register_default_resolver / register_subscription / plain resolver assignment / field.arguments / multi-entry replace '
@@ -359,7 +360,7 @@ CHECKS["C20"].update({
              "safeIn_not_exact_with_list_coercion: Int -> [Int] is reported BREAKING; safeOut_eq: the output predicate IS the subtype test except on the G1 class, safeOut_iff_outside_G1, safeOut_iff_partial + machine-checked "
              "refutation of the full statement = finding G1; safeOut_base / safeIn_base) and about the severity table EXTRACTED from changes.py "
              "(severity_table, compatibleRetypeSeverity). diff_schema itself is modelled in Lean (Diff.lean, root operation types included) with: "
-             "diff_refl / diff_schema_zero, diff_perm and diff_perm_deep (+ _count, no_breaking_perm(_deep)): reordering ANY member list of either schema "
+             "diff_refl / diff_schema_zero / diff_eqv_zero (equal up to the order of every list: nothing reported), diff_perm and diff_perm_deep (+ _count, no_breaking_perm(_deep)): reordering ANY member list of either schema "
              "at any level - types, directives, fields, arguments, enum values, input fields, union members, interfaces, locations - permutes the report "
              "(same multiset at every filter); one *_reported theorem for EVERY elementary edit of the property's list and any_retyped_*_reported / "
              "compatibly_retyped_*_reported (every retyping of a matched element is reported), reported_at_severity, min_severity_filters; "
